@@ -42,6 +42,7 @@ pub struct FlowOpts {
     pub intrinsics_pct: u64, // share of FUNCTIONS that contain intrinsics at all
     pub branches_pct: u64,
     pub unreachable_pct: u64,
+    pub mixed_width_pct: u64, // share of functions whose pool holds one NAME at two widths (a:32 and a:8)
 }
 
 /// Random function: `gen_function` plus injected self-updating assignments (`x = x - 4`), assignments
@@ -54,6 +55,10 @@ pub fn gen_flow_function(r: &mut Rng, fo: &FlowOpts) -> FlowCase {
         1 => vec![("a".into(), 32), ("b".into(), 32), ("x".into(), 8), ("y".into(), 8), ("f".into(), 1)],
         _ => vec![("a".into(), 32), ("b".into(), 32), ("c".into(), 32), ("x".into(), 8), ("f".into(), 1), ("q".into(), 64)],
     };
+    if r.below(100) < fo.mixed_width_pct {
+        o.scalars = vec![("a".into(), 32), ("a".into(), 8), ("b".into(), 32), ("b".into(), 8), ("f".into(), 1)];
+        tags.insert("mixed-width-names".into());
+    }
     o.max_blocks = 6;
     o.max_instrs = 4;
     o.expr_depth = 2;
@@ -84,7 +89,7 @@ pub fn gen_flow_function(r: &mut Rng, fo: &FlowOpts) -> FlowCase {
                 // z = x + y   (two different scalars read; sometimes one of them is z)
                 let x = (*r.pick(&same)).clone();
                 let mut y = (*r.pick(&same)).clone();
-                if y.0 == x.0 { y = same.iter().find(|t| t.0 != x.0).map(|t| (*t).clone()).unwrap(); }
+                if y.0 == x.0 { y = same.iter().find(|t| t.0 != x.0).map(|t| (*t).clone()).unwrap_or(y); }
                 *ins.operation_mut() = Operation::assign(sc(&s), Expression::add(ex(&x), ex(&y)).unwrap());
                 tags.insert("two-reads".into());
             } else if p < 19 {
